@@ -457,7 +457,7 @@ Model gen_model(Rng& rng, const GenOpts& o) {
       s.name = suffix_name(rng, i);
       for (int k = 0; k < items; ++k)
         if (rng.chance(0.6) || (s.vals.empty() && k == items - 1))
-          s.vals.push_back({k, s.real ? g.number() : (double)rng.range(-5, 50)});
+          s.vals.push_back({k, s.real ? g.number() : rng.chance(0.04) ? (rng.chance(0.5) ? 2147483647.0 : -2147483648.0) : rng.chance(0.05) ? (double)rng.range(-2147483647, 2147483647) : (double)rng.range(-5, 50)});
       m.sufs.push_back(s);
     }
   }
